@@ -10,7 +10,8 @@ from vf.xmodel import Schema, Rop, Bound, Outcome, build_api, build_loader
 SHARDS = {'quick': 16, 'thorough': 64}
 TIMEOUT = {'quick': 1200, 'thorough': 7200}
 MUST_HIT = ['QueryRef.select', 'QueryRef.navigate', 'QueryRef.subtype', 'QueryRef.two-hop',
-            'QueryRef.order_by-with-ties', 'QueryRef.set-valued-start', 'QueryRef.filter-covers-identifier', 'QueryRef.first-last']
+            'QueryRef.order_by-with-ties', 'QueryRef.set-valued-start', 'QueryRef.filter-covers-identifier', 'QueryRef.first-last', 'QueryRef.query-repeated',
+            'QueryRef.attribute-assigned-between-queries']
 MUST_REACH = ['xtuml/meta.py:apply_query_operators', 'xtuml/meta.py:WhereEqual.__call__',
               'xtuml/meta.py:OrderBy.__call__', 'xtuml/meta.py:MetaClass.select_one',
               'xtuml/meta.py:MetaClass.select_many', 'xtuml/meta.py:MetaClass.navigate',
@@ -280,13 +281,34 @@ def run_queries(ctx, rng, b, handles, sch, nq, state_key):
     import xtuml
     sh = b.shadow
     m = b.m
+    recent = []
     for _ in range(nq):
         k = rng.random()
         stats = {}
+        if rng.random() < 0.1:
+            # the model state moves on between the queries: a plain attribute of a live instance is assigned
+            kind = rng.choice(sch.kinds())
+            live = [h for h in handles[kind] if sh.alive[h]]
+            ref = set(a.upper() for a in sch.referential(kind))
+            plain = [(a, ty) for a, ty in sch.attrs(kind) if a.upper() not in ref and ty != UID]
+            if live and plain:
+                h = rng.choice(live)
+                a, ty = rng.choice(plain)
+                v = rng.choice(DOMAIN[ty])
+                setattr(b.inst[h], case_variant(rng, a), v)
+                sh.rows[h][a] = v
+                ctx.hit('QueryRef.attribute-assigned-between-queries')
         if k < 0.4:
             kind = rng.choice(sch.kinds())
             ops = gen_ops(rng, sch, sh, kind)
             mode = rng.choice(('many', 'many', 'one', 'any'))
+            if recent and rng.random() < 0.3:
+                # the same query as a while ago, on the state as it is now
+                kind, ops, mode = rng.choice(recent)
+                ctx.hit('QueryRef.query-repeated')
+            else:
+                recent.append((kind, ops, mode))
+                del recent[:-6]
             q = ('select', case_variant(rng, kind), mode, ops)
             exp = ref_ops(sh, sh.extent[kind.upper()], ops, stats)
             fn = {'many': m.select_many, 'one': m.select_one, 'any': m.select_any}[mode]
